@@ -200,8 +200,13 @@ func sysOfSpan(s []span) System {
 
 // Union replaces the receiver with the set union of the receiver and the argument.
 func (s *Set) Union(t Set) error {
+	// The receiver's spans may be those of the Constraint the set was taken
+	// from with Set (a Set is a value, its slice is shared): build the result
+	// in a slice of its own, canon sorts in place.
+	spans := make([]span, 0, len(s.span)+len(t.span))
+	spans = append(append(spans, s.span...), t.span...)
 	var err error
-	s.span, err = canon(append(s.span, t.span...))
+	s.span, err = canon(spans)
 	return err
 }
 
